@@ -107,6 +107,8 @@ def run(pid, tier, seed, replay=None):
     if not ok:
         raise C.Broken("model driver does not build: " + lg[-1500:])
 
+    listed_findings = set(fd["signature"].split(":")[0] for fd in C.known_findings(pid))
+
     # --- 2. cases
     parts = mod.parts(tier, rng) if replay is None else mod.replay_parts(json.load(open(replay)))
     for part in parts:
@@ -139,6 +141,9 @@ def run(pid, tier, seed, replay=None):
                 dis.append(i)
             if not o.startswith("1"):
                 sig = mod.known_signature(part, c, a, o)
+                # only findings LISTED in known_findings.json (status "finding") suppress anything
+                if sig is not None and not all(x in listed_findings for x in sig.split("+")):
+                    sig = None
                 if sig is not None:
                     known_hits.setdefault(sig, (part.name, c, a, o))
                 else:
@@ -202,8 +207,10 @@ def run(pid, tier, seed, replay=None):
         def fails(ls):
             im = C.run_harness(part.engine, ls, shards=1)
             orc = oracle_verdicts(part, ls, im, shards=1)
-            return [(not x.startswith("1")) and mod.known_signature(part, l, y, x) is None
-                    for l, y, x in zip(ls, im, orc)]
+            def unlisted(l, y, x):
+                sg = mod.known_signature(part, l, y, x)
+                return sg is None or not all(z in listed_findings for z in sg.split("+"))
+            return [(not x.startswith("1")) and unlisted(l, y, x) for l, y, x in zip(ls, im, orc)]
 
         small = shrink(part, c, fails)
         im = C.run_harness(part.engine, [small], shards=1)[0]
